@@ -3572,6 +3572,30 @@ async fn main() -> anyhow::Result<()> {
     let manifest_path = data_dir_path.join("MANIFEST");
     let should_attempt_recovery = config.persistence.enable_recovery && manifest_path.exists();
 
+    // Strict mode: a data directory that still holds WAL segments or snapshots but no MANIFEST has
+    // lost its recovery evidence. Starting an empty database here would silently drop every document.
+    if config.persistence.enable_recovery
+        && !manifest_path.exists()
+        && config.persistence.recovery_mode == kyrodb_engine::config::RecoveryMode::Strict
+    {
+        let orphaned = std::fs::read_dir(&data_dir_path)
+            .map(|entries| {
+                entries.flatten().any(|entry| {
+                    let name = entry.file_name();
+                    let name = name.to_string_lossy();
+                    (name.starts_with("wal_") && name.ends_with(".wal"))
+                        || (name.starts_with("snapshot_") && name.ends_with(".snap"))
+                })
+            })
+            .unwrap_or(false);
+        if orphaned {
+            anyhow::bail!(
+                "MANIFEST missing in {} but WAL/snapshot files are present; refusing to start with an empty database (recovery_mode=strict)",
+                data_dir_path.display()
+            );
+        }
+    }
+
     let create_empty_engine =
         |cache_strategy: Box<dyn kyrodb_engine::CacheStrategy>,
          query_cache: Arc<kyrodb_engine::QueryHashCache>| {
